@@ -49,12 +49,22 @@ class C11(Prop):
                                       "edits": st.lists(step, min_size=1, max_size=4),
                                       "sample": st.integers(0, 50)})
 
+    def fixed_cases(self, tier):
+        return gen_ir.example_cases(tier, quick_limit=4000, thorough_limit=9000)
+
     def run(self, case):
         import spydrnet as sdn
 
         res = Result()
-        B = gen_ir.build(case["design"])
-        nl = B.netlist
+        if "example" in case:
+            nl = gen_ir.load_example(case)
+            res.label("bundled-example")
+            if nl is None or nl.top_instance is None or model.wf(nl, strict=True):
+                res.label("example-not-usable")
+                return res
+            case = dict(case, edits=[], sample=0)
+        else:
+            nl = gen_ir.build(case["design"]).netlist
         M = HModel(nl)
         depth2 = Counter(id(p[-1]) for p in M.paths if len(p) >= 3)
         if any(v >= 2 for v in depth2.values()):
